@@ -87,6 +87,14 @@ Check(n) ==
        /\ ev' = [op |-> "Validate", n |-> n, out |-> IF r.ok THEN "ok" ELSE r.err.cls,
                  errpath |-> r.err.path, repl |-> {}, vlog |-> r.log]
 
+\* m.load_tree(n.to_tree()): an in-memory clone of one configuration into the other
+CopyTree(n, m) ==
+    /\ Built(n) /\ Built(m) /\ n # m
+    /\ LET tree == ToTree(S, cfgs[n], FALSE, NoMask)
+           r == LoadTree(S, cfgs[m], tree, <<>>, TRUE) IN
+       /\ cfgs' = [cfgs EXCEPT ![m] = r.cfg]
+       /\ ev' = [op |-> "CopyTree", n |-> m, src |-> n, out |-> Outcome(r), errpath |-> r.err.path, repl |-> r.repl]
+
 \* cfg.validate(collect_errors=True): returns a list instead of raising
 CheckCollect(n) ==
     /\ Built(n)
@@ -107,6 +115,7 @@ Next ==
     \/ \E n \in Names, pk \in DOMAIN DictOps : \E o \in DictOps[pk] : Tick /\ COp(n, pk, o)
     \/ \E n \in Names : Tick /\ Check(n)
     \/ \E n \in Names : Tick /\ CheckCollect(n)
+    \/ \E n \in Names, m \in Names : Tick /\ CopyTree(n, m)
 
 Bound == TRUE
 
